@@ -104,7 +104,7 @@ def fence_exit(eng, st, ctrl, v):
 
 
 CONTRACTS.append(Contract(
-    M + '_sanitize_filename', props=['C07', 'C15', 'C17', 'C10', 'C08'],
+    M + '_sanitize_filename', props=['C07', 'C15', 'C17', 'C10', 'C08', 'C04', 'C03'],
     params={'filename': PYV}, returns=STR,
     requires=lambda c: [('wf', J.wf(c.filename))],
     ensures=lambda c: [
